@@ -860,6 +860,52 @@ def World.step (w : World) (op : Op) : World × List WOut × List WOut :=
       let r' := World.effects fuel r.1 r.2
       (r'.1.tables op r.2, r.2, r'.2)
 
+/-! ### fuel sufficiency of `World.effects`, as a computed predicate (evaluated by the driver on every
+replayed step: `model-fuel-exhausted`; `Lemmas/LifeDelivery.lean` proves delivery under it) -/
+
+mutual
+def World.cascadeDone (fuel : Nat) (w : World) (kids : List Nat) : Bool :=
+  match fuel with
+  | 0 => kids.isEmpty
+  | fuel + 1 =>
+    match kids with
+    | [] => true
+    | c :: cs =>
+      let r1 := w.apply c .treeTaken
+      let r2 := World.effects fuel r1.1 r1.2
+      World.effectsDone fuel r1.1 r1.2 && World.cascadeDone fuel r2.1 cs
+
+def World.effectsDone (fuel : Nat) (w : World) (outs : List WOut) : Bool :=
+  match fuel with
+  | 0 => outs.isEmpty
+  | fuel + 1 =>
+    match outs with
+    | [] => true
+    | (src, o) :: rest =>
+      let r := match o with
+        | .ev (.emit p e) => w.apply p (.supArrive e)
+        | .eff (.cascade kids) => World.cascade fuel w kids
+        | .eff (.link p) => w.apply p (.kidAdd src)
+        | .eff (.unlink p) => w.apply p (.kidDel src)
+        | _ => (w, [])
+      (match o with
+        | .eff (.cascade kids) => World.cascadeDone fuel w kids
+        | _ => true) && World.effectsDone fuel r.1 rest
+end
+
+/-- The fuel `World.step` gives to the effects of one op sufficed. -/
+def World.stepDone (w : World) (op : Op) : Bool :=
+  match op with
+  | .case => true
+  | _ =>
+    match op.target w with
+    | none => true
+    | some (a, aop) =>
+      let w : World := if a = w.actors.length then { w with actors := w.actors ++ [Actor.init a] } else w
+      let r := w.apply a aop
+      let fuel := 4 * (w.actors.length + 1) * (r.2.length + 1) + 8
+      World.effectsDone fuel r.1 r.2
+
 /-- A run of the composed world: all outputs (the target's own, then those of the actors its
 effects reached), tagged by actor, in order. -/
 def World.run (w : World) : List Op → World × List WOut
